@@ -481,6 +481,26 @@ def fixed_scenarios():
     out.append(("F13a", d, [("open", 0), ("add", 0, [1, 2]), ("add", 0, [6]), ("commit", 0)]))
     out.append(("F13b", d, [("open", 0), ("add", 0, [1, 2]), ("add", 0, [6]), ("add", 0, [7]), ("add", 0, [3]),
                             ("flush", 0), ("add", 0, [6]), ("commit", 0), ("open", 1), ("add", 1, [7]), ("commit", 1)]))
+    # merge COMMANDS over transaction-local tips (written, uncommitted), then - before anything flushes the merge -
+    # a duplicate of a merged parent / of an ancestor on the merged branches; and merges over committed heads
+    m25, m45 = merge_id(2, 5), merge_id(4, 5)
+    dm = dag(base + [(m25, "m", (2, 5), 0, ()), (m45, "m", (4, 5), 0, ()), (8, 1, (m25,), 0, (("A", 0, 8),)),
+                     (9, 0, (m25,), 0, (("W", 4, 4),)), (11, 1, (m45,), 0, (("A", 0, 11),))])
+    out.append(("Mloc-left", dm, [("open", 0), ("add", 0, [1, 2]), ("add", 0, [5]), ("add", 0, [m25]), ("add", 0, [2]), ("commit", 0)]))
+    out.append(("Mloc-right", dm, [("open", 0), ("add", 0, [1, 2]), ("add", 0, [5]), ("add", 0, [m25]), ("add", 0, [5]), ("commit", 0),
+                                   ("action", True, None, [(12, 1, (("A", 0, 12),))])]))
+    out.append(("Mloc-anc", dm, [("open", 0), ("add", 0, [1, 2, 3, 4]), ("add", 0, [5]), ("add", 0, [m45]), ("add", 0, [3]),
+                                 ("add", 0, [4, 2, 5]), ("commit", 0), ("sess",)]))
+    out.append(("Mloc-batch", dm, [("open", 0), ("add", 0, [1, 2, 5, m25, 2, 5, 8]), ("add", 0, [m25, 5]), ("commit", 0)]))
+    out.append(("Mloc-child", dm, [("open", 0), ("add", 0, [1, 2]), ("add", 0, [5]), ("add", 0, [m25, 8]), ("add", 0, [2]),
+                                   ("add", 0, [9]), ("add", 0, [5, m25]), ("flush", 0), ("add", 0, [8, 2]), ("commit", 0)]))
+    out.append(("Mloc-rejchild", dm, [("open", 0), ("add", 0, [1, 2]), ("add", 0, [5]), ("add", 0, [m25]), ("add", 0, [9]),
+                                      ("add", 0, [5]), ("add", 0, [2]), ("commit", 0)]))
+    out.append(("Mcommitted", dm, [("open", 0), ("add", 0, [1, 2, 3, 4]), ("add", 0, [5]), ("commit", 0), ("open", 1),
+                                   ("add", 1, [m45]), ("add", 1, [4]), ("add", 1, [5, 3]), ("add", 1, [11]), ("add", 1, [m45]),
+                                   ("commit", 1)]))
+    out.append(("Mtwo-merges", dm, [("open", 0), ("add", 0, [1, 2, 3, 4]), ("add", 0, [5]), ("add", 0, [m25]), ("add", 0, [m45]),
+                                    ("add", 0, [2]), ("add", 0, [4]), ("add", 0, [m25]), ("commit", 0)]))
     # two transactions racing, the loser keeps working and commits again
     out.append(("race", d, [("open", 0), ("open", 1), ("add", 0, [1, 2]), ("add", 1, [5]), ("commit", 1), ("add", 0, [3]),
                             ("commit", 0), ("open", 0), ("add", 0, [2, 3]), ("commit", 0), ("sess",), ("probe", 3, 2)]))
@@ -653,4 +673,119 @@ def exhaustive_small_cases(flush=False):
             ops.append(("add", 0, [x]))
         ops.append(("commit", 0))
         cases.append(("perm%s%d" % ("f" if flush else "", k), "mem" if k % 2 else "libc", 1, d, ops))
+    return cases
+
+
+# ---------------------------------------------------------------- merge commands over transaction-local tips
+def gen_merge_history(r, steps, ntx=1, reject_w=6, p_merge=30, p_dup=30, p_flush=8, p_commit=6, nkeys=4):
+    """DAG and history generated together: commands are created as children of what a transaction already
+    holds; MERGE COMMANDS (id = merge_id, as a peer's policy would produce them) are created over two incomparable
+    commands the transaction holds - its local tips most of the time, sometimes older commands or committed heads -
+    and delivered like any other command; deliveries are interleaved with duplicates of arbitrary earlier commands
+    (preferably the parents of the merge that is still in the in-flight perspective), flushes, rejected commands
+    and commits."""
+    d = Dag()
+    used = set()
+
+    def fresh():
+        while True:
+            x = r.below(1 << 20) + 1
+            if x not in used and x not in d.cmds:
+                used.add(x)
+                return x
+    gid = fresh()
+    d.add(Cmd(gid, "i", (), 1, (("S", 0, 1),)))
+    ops = []
+    committed = {gid}
+    held = {}
+    delivered = [gid]
+    for t in range(ntx):
+        ops.append(("open", t))
+        held[t] = set()
+    ops.append(("add", 0, [gid]))
+    for t in held:
+        held[t] = {gid}
+    batch, bt = [], 0
+
+    def emit():
+        nonlocal batch
+        if batch:
+            ops.append(("add", bt, batch))
+            batch = []
+
+    def leaves(hs):
+        return [x for x in hs if not any(x in d.cmds[y].par for y in hs)]
+    last_merge = None
+    for _ in range(steps):
+        t = r.choice(sorted(held))
+        if t != bt:
+            emit()
+            bt = t
+        hs = held[t]
+        c = r.below(100)
+        if c < p_flush:
+            emit()
+            ops.append(("flush", t))
+            continue
+        if c < p_flush + p_commit:
+            emit()
+            ops.append(("commit", t))
+            committed |= hs
+            ops.append(("open", t))
+            held[t] = set(committed)
+            last_merge = None
+            continue
+        c = r.below(100)
+        if c < p_dup and len(delivered) > 1:
+            # duplicates: the parents of the last merge, or anything delivered before
+            if last_merge is not None and r.below(100) < 60:
+                x = r.choice(list(d.cmds[last_merge].par) + [last_merge])
+            else:
+                x = r.choice(delivered)
+            batch.append(x)
+        elif c < p_dup + p_merge:
+            lv = leaves(hs)
+            pool = lv if (len(lv) >= 2 and r.below(100) < 75) else sorted(hs)
+            done = False
+            for _try in range(8):
+                a, b = r.choice(pool), r.choice(pool)
+                if a != b and not d.comparable(a, b):
+                    l, rr = min(a, b), max(a, b)
+                    m = merge_id(l, rr)
+                    if m not in d.cmds:
+                        d.add(Cmd(m, "m", (l, rr), 0, ()))
+                    batch.append(m)
+                    hs.add(m)
+                    delivered.append(m)
+                    last_merge = m
+                    done = True
+                    break
+            if not done:
+                continue
+        else:
+            lv = leaves(hs)
+            parent = r.choice(lv) if r.below(100) < 50 else r.choice(sorted(hs))
+            x = fresh()
+            prog = tuple(o for o in rand_prog(r, reject_w, nkeys) if o[0] != "Q")
+            d.add(Cmd(x, r.choice([0, 0, 1, 2]), (parent,), 0, prog))
+            batch.append(x)
+            delivered.append(x)
+            if not sure_fail(prog):
+                hs.add(x)
+        if r.below(100) < 55:
+            emit()
+    emit()
+    for t in sorted(held):
+        ops.append(("commit", t))
+    if r.below(2):
+        ops.append(("action", True, None, [(fresh() + (1 << 41), 1, (("A", 0, 77),))]))
+    return d, ops
+
+
+def merge_family_cases(ctx, n, steps_lo=10, steps_hi=30, prefix="mg"):
+    r = ctx.rng
+    cases = []
+    for i in range(n):
+        d, ops = gen_merge_history(r, r.range(steps_lo, steps_hi), ntx=r.choice([1, 1, 2]))
+        cases.append(("%s%d" % (prefix, i), "libc" if i % 3 == 1 else "mem", gid_of(d), d, ops))
     return cases
